@@ -343,7 +343,7 @@ ManifestErr(ps, manifest) ==
     [] manifest = "extra"    -> "InvalidPart"                              \* names a part never uploaded
     [] OTHER -> ""
 
-CompleteUpload(S, b, k, u, manifest, cond) ==
+CompleteUpload(S, b, k, u, manifest, cond, cksum) ==
   IF ~Exists(S, b) THEN Err(S, "NoSuchBucket")
   ELSE IF ~UpMatches(S, u, b, k) THEN Err(S, "NoSuchKey")
   ELSE LET i == UpIdx(S, u)
@@ -351,6 +351,7 @@ CompleteUpload(S, b, k, u, manifest, cond) ==
            ps == up.parts IN
        IF \E j \in 1..Len(ps) : ps[j].n # j THEN Err(S, "InvalidUploadSequence")
        ELSE IF ManifestErr(ps, manifest) # "" THEN Err(S, ManifestErr(ps, manifest))
+       ELSE IF cksum = "md5bad" THEN Err(S, "BadDigest")      \* declared whole-object digest disagrees
        ELSE LET nr == [parts |-> [j \in 1..Len(ps) |-> ps[j].c], single |-> FALSE, ctype |-> up.ctype,
                        meta |-> up.meta, tags |-> up.tags, class |-> up.class, seq1 |-> Len(ps) >= 1,
                        pcls |-> [j \in 1..Len(ps) |-> up.class], ck |-> up.ck]
